@@ -144,19 +144,18 @@ class ModelProc:
 
     def run_case(self, case):
         lines = case_to_model_text(case)
-        n = len(case['ops'])
-        self.p.stdin.write('\n'.join(lines) + '\nECHO @@END\n')
-        self.p.stdin.flush()
         out = []
-        while True:
-            l = self.p.stdout.readline()
-            if not l:
-                raise RuntimeError('model driver died; case=%s' % json.dumps(case)[:2000])
-            l = l.rstrip('\n')
-            if l == '@@END':
-                break
-            out.append(l)
-        assert len(out) == n, (len(out), n)
+        CH = 150
+        for i in range(0, len(lines), CH):
+            chunk = lines[i:i + CH]
+            self.p.stdin.write('\n'.join(chunk) + '\n')
+            self.p.stdin.flush()
+            for _ in range(sum(1 for l in chunk if l.startswith('OP '))):
+                l = self.p.stdout.readline()
+                if not l:
+                    raise RuntimeError('model driver died; case=%s' % json.dumps(case)[:2000])
+                out.append(l.rstrip('\n'))
+        assert len(out) == len(case['ops']), (len(out), len(case['ops']))
         return out
 
     def query(self, q):
